@@ -35,25 +35,27 @@ VARIABLES authed,                    \* the client authenticated
           hadFwd,                    \* ghost: the forwards granted at some time (separates "never enabled" from "cancelled")
           refusedLast,               \* ghost: the client's most recent forwarding operation (request or cancel) was a request
                                      \* the server refused (a refusal enables nothing, whatever was granted or cancelled before it)
+          subsysReg,                 \* client configuration: a subsystem handler is registered (Transport.set_subsystem_handler);
+                                     \* it is for server mode and must change nothing about what a client answers
           last                       \* the last step and what the client answered
-vars == <<authed, chan, x11H, agentH, tcpH, x11Req, agentReq, fwd, hadFwd, refusedLast, last>>
+vars == <<authed, chan, x11H, agentH, tcpH, x11Req, agentReq, fwd, hadFwd, refusedLast, subsysReg, last>>
 
 NoReply == "none"
 Obs(op, arg, flag, reply, accepted) == [op |-> op, arg |-> arg, flag |-> flag, reply |-> reply, accepted |-> accepted]
 
 Init == /\ authed = FALSE /\ chan = FALSE
         /\ x11H = FALSE /\ agentH = FALSE /\ tcpH = FALSE
-        /\ x11Req = FALSE /\ agentReq = FALSE /\ fwd = {} /\ hadFwd = {} /\ refusedLast = FALSE
+        /\ x11Req = FALSE /\ agentReq = FALSE /\ fwd = {} /\ hadFwd = {} /\ refusedLast = FALSE /\ subsysReg = FALSE
         /\ last = Obs("init", "", FALSE, NoReply, FALSE)
 
 (* ---------------- client operations (user thread) ---------------- *)
 Authenticate == /\ ~authed /\ authed' = TRUE
                 /\ last' = Obs("auth", "", FALSE, NoReply, FALSE)
-                /\ UNCHANGED <<chan, x11H, agentH, tcpH, x11Req, agentReq, fwd, hadFwd, refusedLast>>
+                /\ UNCHANGED <<chan, x11H, agentH, tcpH, x11Req, agentReq, fwd, hadFwd, refusedLast, subsysReg>>
 
 OpenSession == /\ authed /\ chan' = TRUE
                /\ last' = Obs("open_session", "", FALSE, NoReply, FALSE)
-               /\ UNCHANGED <<authed, x11H, agentH, tcpH, x11Req, agentReq, fwd, hadFwd, refusedLast>>
+               /\ UNCHANGED <<authed, x11H, agentH, tcpH, x11Req, agentReq, fwd, hadFwd, refusedLast, subsysReg>>
 
 \* Channel.request_x11: x11-req with want_reply; the handler is installed only after the server's
 \* CHANNEL_SUCCESS; a CHANNEL_FAILURE closes the channel (Channel._request_failed) and raises
@@ -63,14 +65,14 @@ RequestX11(granted) ==
   /\ x11H' = (x11H \/ granted)
   /\ chan' = granted
   /\ last' = Obs("x11", "", granted, NoReply, FALSE)
-  /\ UNCHANGED <<authed, agentH, tcpH, agentReq, fwd, hadFwd, refusedLast>>
+  /\ UNCHANGED <<authed, agentH, tcpH, agentReq, fwd, hadFwd, refusedLast, subsysReg>>
 
 \* Channel.request_forward_agent: no reply is asked for; the handler is installed at once
 RequestAgent ==
   /\ chan
   /\ agentReq' = TRUE /\ agentH' = TRUE
   /\ last' = Obs("agent", "", FALSE, NoReply, FALSE)
-  /\ UNCHANGED <<authed, chan, x11H, tcpH, x11Req, fwd, hadFwd, refusedLast>>
+  /\ UNCHANGED <<authed, chan, x11H, tcpH, x11Req, fwd, hadFwd, refusedLast, subsysReg>>
 
 \* Transport.request_port_forward: tcpip-forward global request answered by the server with REQUEST_SUCCESS
 \* (granted) or REQUEST_FAILURE; the handler is installed only when granted, a refused request raises and
@@ -83,7 +85,7 @@ RequestPortForward(p, granted) ==
   /\ hadFwd' = IF granted THEN hadFwd \cup {p} ELSE hadFwd
   /\ refusedLast' = ~granted
   /\ last' = Obs("fwd", p, granted, NoReply, FALSE)
-  /\ UNCHANGED <<authed, chan, x11H, agentH, x11Req, agentReq>>
+  /\ UNCHANGED <<authed, chan, x11H, agentH, x11Req, agentReq, subsysReg>>
 
 \* Transport.cancel_port_forward: the (single) handler is dropped before the request is sent - also when another
 \* forward is still active (the statement allows refusing then; a tree that keeps the handler while fwd' # {} shows up
@@ -93,13 +95,19 @@ CancelPortForward(p) ==
   /\ fwd' = fwd \ {p}
   /\ hadFwd' = hadFwd /\ refusedLast' = FALSE
   /\ last' = Obs("cancel", p, FALSE, NoReply, FALSE)
-  /\ UNCHANGED <<authed, chan, x11H, agentH, x11Req, agentReq>>
+  /\ UNCHANGED <<authed, chan, x11H, agentH, x11Req, agentReq, subsysReg>>
+
+\* Transport.set_subsystem_handler(name, handler): fills subsystem_table
+RegisterSubsystem ==
+  /\ subsysReg' = TRUE
+  /\ last' = Obs("subsys", "", FALSE, NoReply, FALSE)
+  /\ UNCHANGED <<authed, chan, x11H, agentH, tcpH, x11Req, agentReq, fwd, hadFwd, refusedLast>>
 
 (* ---------------- server-initiated events (transport thread of the client) ---------------- *)
 \* _parse_global_request, `if not self.server_mode: ok = False`
 GlobalRequest(kind, wantReply) ==
   /\ last' = Obs("global", kind, wantReply, IF wantReply THEN "REQUEST_FAILURE" ELSE NoReply, FALSE)
-  /\ UNCHANGED <<authed, chan, x11H, agentH, tcpH, x11Req, agentReq, fwd, hadFwd, refusedLast>>
+  /\ UNCHANGED <<authed, chan, x11H, agentH, tcpH, x11Req, agentReq, fwd, hadFwd, refusedLast, subsysReg>>
 
 HandlerFor(kind) == \/ (kind = AGENT /\ agentH)
                     \/ (kind = X11 /\ x11H)
@@ -108,7 +116,7 @@ HandlerFor(kind) == \/ (kind = AGENT /\ agentH)
 \* _parse_channel_open
 ChannelOpen(kind) ==
   /\ last' = Obs("open", kind, FALSE, IF HandlerFor(kind) THEN "OPEN_SUCCESS" ELSE "OPEN_FAILURE", HandlerFor(kind))
-  /\ UNCHANGED <<authed, chan, x11H, agentH, tcpH, x11Req, agentReq, fwd, hadFwd, refusedLast>>
+  /\ UNCHANGED <<authed, chan, x11H, agentH, tcpH, x11Req, agentReq, fwd, hadFwd, refusedLast, subsysReg>>
 
 Approved(type) == type \in Harmless \/ (ApproveExec /\ type = "exec")
 \* Channel._handle_request on a channel the client opened (server_object is None)
@@ -116,9 +124,9 @@ ChannelRequest(type, wantReply) ==
   /\ chan
   /\ last' = Obs("chanreq", type, wantReply,
                  IF ~wantReply THEN NoReply ELSE IF Approved(type) THEN "CHANNEL_SUCCESS" ELSE "CHANNEL_FAILURE", FALSE)
-  /\ UNCHANGED <<authed, chan, x11H, agentH, tcpH, x11Req, agentReq, fwd, hadFwd, refusedLast>>
+  /\ UNCHANGED <<authed, chan, x11H, agentH, tcpH, x11Req, agentReq, fwd, hadFwd, refusedLast, subsysReg>>
 
-ClientOp == \/ Authenticate \/ OpenSession \/ RequestAgent
+ClientOp == \/ Authenticate \/ OpenSession \/ RequestAgent \/ RegisterSubsystem
             \/ \E g \in BOOLEAN : RequestX11(g)
             \/ \E p \in Ports, g \in BOOLEAN : RequestPortForward(p, g)
             \/ \E p \in Ports : CancelPortForward(p)
@@ -136,6 +144,7 @@ Step(op, arg, flag) ==
     [] op = "agent" -> RequestAgent
     [] op = "fwd" -> RequestPortForward(arg, flag)
     [] op = "cancel" -> CancelPortForward(arg)
+    [] op = "subsys" -> RegisterSubsystem
     [] op = "global" -> GlobalRequest(arg, flag)
     [] op = "open" -> ChannelOpen(arg)
     [] op = "chanreq" -> ChannelRequest(arg, flag)
